@@ -365,6 +365,10 @@ def _is_mask(m_):
   return isinstance(m_, ast.Call) and isinstance(m_.func, ast.Attribute) and m_.func.attr in ('isin', 'between', 'duplicated', 'isna', 'notna', 'isnull', 'notnull')
 
 
+RECORD_FIELDS = {}      # record type name -> ordered field names (filled by core.Repo at load time)
+RECORD_KIND = {}        # record type name -> 'tuple' (namedtuple / NamedTuple) | 'dataclass'
+
+
 def idioms(e):
   """Normal forms of library spellings that denote the same value (applied at load time and to every expanded term, since
   substituting a local can bring two halves of a spelling together):
@@ -387,6 +391,48 @@ def idioms(e):
     return ast.copy_location(ast.Subscript(value=e.value.value, slice=ast.Tuple(elts=[e.value.slice, e.slice], ctx=ast.Load()), ctx=ast.Load()), e)
   if isinstance(e, ast.Attribute) and e.attr == 'values' and isinstance(e.ctx, ast.Load):
     return ast.copy_location(ast.Call(func=ast.Attribute(value=e.value, attr='to_numpy', ctx=ast.Load()), args=[], keywords=[]), e)
+  # Record(a, b).second -> b   /   Record(a, b)[1] -> b     (namedtuples, NamedTuple classes and plain dataclasses of the package)
+  if isinstance(e, (ast.Attribute, ast.Subscript)) and isinstance(getattr(e, 'ctx', None), ast.Load) and isinstance(e.value, ast.Call) \
+      and isinstance(e.value.func, (ast.Name, ast.Attribute)):
+    c_ = e.value
+    rn_ = c_.func.id if isinstance(c_.func, ast.Name) else c_.func.attr
+    flds_ = RECORD_FIELDS.get(rn_)
+    if flds_ and not any(isinstance(a_, ast.Starred) for a_ in c_.args) and not any(k_.arg is None for k_ in c_.keywords) and len(c_.args) + len(c_.keywords) <= len(flds_):
+      given_ = dict(zip(flds_, c_.args))
+      given_.update({k_.arg: k_.value for k_ in c_.keywords if k_.arg in flds_})
+      if isinstance(e, ast.Attribute) and e.attr in given_:
+        return given_[e.attr]
+      if isinstance(e, ast.Subscript) and isinstance(e.slice, ast.Constant) and isinstance(e.slice.value, int) and not isinstance(e.slice.value, bool) \
+          and RECORD_KIND.get(rn_) == 'tuple' and -len(flds_) <= e.slice.value < len(flds_) and flds_[e.slice.value] in given_:
+        return given_[flds_[e.slice.value]]
+  # x in frozenset(S) / x in set(S)  ->  x in S     (a membership test does not depend on the container; the elements
+  # of S are the things compared, so they are hashable whenever the copy could be built at all)
+  if isinstance(e, ast.Compare) and len(e.ops) == 1 and isinstance(e.ops[0], (ast.In, ast.NotIn)):
+    c0 = e.comparators[0]
+    if isinstance(c0, ast.Call) and isinstance(c0.func, ast.Name) and c0.func.id in ('frozenset', 'set') and len(c0.args) == 1 and not c0.keywords \
+        and not isinstance(c0.args[0], (ast.GeneratorExp, ast.ListComp, ast.Starred)):
+      e.comparators = [c0.args[0]]
+  # S.isin(list(X)) -> S.isin(X)   (membership again)
+  if isinstance(e, ast.Call) and isinstance(e.func, ast.Attribute) and e.func.attr == 'isin' and len(e.args) == 1 and not e.keywords:
+    a0 = e.args[0]
+    if isinstance(a0, ast.Call) and isinstance(a0.func, ast.Name) and a0.func.id in ('list', 'tuple', 'set', 'frozenset') and len(a0.args) == 1 and not a0.keywords \
+        and not isinstance(a0.args[0], (ast.Starred, ast.GeneratorExp)):
+      e.args = [a0.args[0]]
+  # [.. for v in list(E)]  ->  [.. for v in E]        (a comprehension cannot change what it iterates over)
+  if isinstance(e, (ast.ListComp, ast.SetComp, ast.GeneratorExp, ast.DictComp)):
+    for gen_ in e.generators:
+      it_ = gen_.iter
+      if isinstance(it_, ast.Call) and isinstance(it_.func, ast.Name) and it_.func.id in ('list', 'tuple') and len(it_.args) == 1 and not it_.keywords \
+          and not isinstance(it_.args[0], ast.Starred):
+        gen_.iter = it_.args[0]
+  # list([a, b]) -> [a, b];  dict({k: v}) -> {k: v};  tuple((a, b)) -> (a, b);  set({a}) -> {a}     (a fresh copy of a display)
+  if isinstance(e, ast.Call) and isinstance(e.func, ast.Name) and len(e.args) == 1 and not e.keywords:
+    a0 = e.args[0]
+    if (e.func.id == 'list' and isinstance(a0, ast.List)) or (e.func.id == 'dict' and isinstance(a0, ast.Dict)) \
+        or (e.func.id == 'tuple' and isinstance(a0, ast.Tuple)) or (e.func.id == 'set' and isinstance(a0, ast.Set)):
+      return a0
+  if isinstance(e, ast.Call) and norm(e.func) in ('typing.cast', 'cast') and len(e.args) == 2 and not e.keywords:
+    return e.args[1]              # typing.cast(T, x) is x
   if isinstance(e, ast.Call) and isinstance(e.func, ast.Lambda) and not e.args and not e.keywords:
     a_ = e.func.args
     if not (a_.args or a_.posonlyargs or a_.kwonlyargs or a_.vararg or a_.kwarg):
